@@ -9,7 +9,9 @@ Statement (for every power-of-two capacity `c = 2^k`, `k` arbitrary — below, a
 word —, every history of `set`/`unset` calls and every sequence number `s`): no call ever indexes out of
 bounds, and `is_set s` answers exactly "the last call addressed to the residue class of `s` modulo `c`
 was a `set`" (`Spec.BitMap.isSet`). Independence of residues and commutation of calls on distinct
-residues are corollaries.
+residues are corollaries; `c19_concurrent_distinct_residues` states the concurrent clause for every interleaving of two
+threads whose calls are atomic read-modify-writes (that each call of the real code is exactly one `fetch_or` / `fetch_and` is checked
+under the deterministic scheduler by the correspondence run).
 -/
 namespace C19
 open Gen.BitMap Spec.BitMap Model.BitMap
@@ -210,6 +212,67 @@ theorem c19_distinct_residues_commute (k : Nat) (ops : List Op) (a b : Op) (s : 
 theorem c19_cell_eq_iff_residue_eq (k a b : Nat) :
     (slotOf (2 ^ k) a = slotOf (2 ^ k) b ∧ bitOf (2 ^ k) a = bitOf (2 ^ k) b) ↔ a % 2 ^ k = b % 2 ^ k :=
   cell_eq_iff _ a b
+
+/-! ## concurrent calls on distinct residues -/
+
+/-- does the call address the residue class of `s`? -/
+def sameRes (c s : Nat) (op : Op) : Bool := op.seq % c == s % c
+
+/-- only the calls addressed to the residue class of `s` matter for `s` -/
+theorem isSet_filter (c : Nat) (hist : List Op) (s : Nat) :
+    isSet c hist s = isSet c (hist.filter (sameRes c s)) s := by
+  induction hist with
+  | nil => rfl
+  | cons op rest ih =>
+    by_cases h : op.seq % c = s % c
+    · have hb : sameRes c s op = true := by simp [sameRes, h]
+      rw [List.filter_cons_of_pos hb]
+      simp only [isSet, h, if_true]
+    · have hb : ¬ sameRes c s op = true := by simp [sameRes, h]
+      rw [List.filter_cons_of_neg hb]
+      simp only [isSet, h, if_false]
+      exact ih
+
+/-- `m` is an interleaving of the two call sequences `a` and `b` (each in its own program order) -/
+inductive Interleave : List Op → List Op → List Op → Prop
+  | nil : Interleave [] [] []
+  | left {a b m} (x : Op) : Interleave a b m → Interleave (x :: a) b (x :: m)
+  | right {a b m} (y : Op) : Interleave a b m → Interleave a (y :: b) (y :: m)
+
+theorem Interleave.filter_left {a b m : List Op} (h : Interleave a b m) (p : Op → Bool)
+    (hb : ∀ y, y ∈ b → p y = false) : m.filter p = a.filter p := by
+  induction h with
+  | nil => rfl
+  | left x _ ih => simp only [List.filter]; cases p x <;> simp [ih hb]
+  | right y _ ih =>
+    have hy := hb y (by simp)
+    simp only [List.filter, hy]
+    exact ih (fun z hz => hb z (by simp [hz]))
+
+/-- **concurrent calls on distinct residues**: two threads issue `set`/`unset` calls, each call one atomic
+read-modify-write of a word (that each call *is* exactly one `fetch_or`/`fetch_and` is checked on the real code by the
+scheduler harness); thread A's calls address residue classes that thread B never touches. Then for every interleaving
+and every sequence number in one of A's classes the bit map answers as if A had run alone. -/
+theorem c19_concurrent_distinct_residues (k : Nat) (a b m : List Op) (hm : Interleave a b m)
+    (hd : ∀ x, x ∈ a → ∀ y, y ∈ b → x.seq % 2 ^ k ≠ y.seq % 2 ^ k) (s : Nat)
+    (hs : ∃ x, x ∈ a ∧ x.seq % 2 ^ k = s % 2 ^ k) :
+    ∃ bm, run (build (2 ^ k)) m = some bm ∧ is_set bm s = some (isSet (2 ^ k) a.reverse s) := by
+  obtain ⟨bm, hrun, his⟩ := c19_bitmap_is_residue_set k m s
+  refine ⟨bm, hrun, ?_⟩
+  rw [his, isSet_filter, isSet_filter (2 ^ k) a.reverse]
+  congr 1
+  rw [List.filter_reverse, List.filter_reverse]
+  congr 2
+  apply hm.filter_left
+  intro y hy
+  obtain ⟨x, hx, hxs⟩ := hs
+  have := hd x hx y hy
+  simp only [sameRes, beq_eq_false_iff_ne, ne_eq]
+  intro h; exact this (by omega)
+
+example : Interleave [.set 1, .unset 1] [.set 2] [.set 1, .set 2, .unset 1] :=
+  .left _ (.right _ (.left _ .nil))
+
 
 /-! ## non-vacuity: concrete histories, below / at / above one machine word -/
 example : ∃ bm, run (build 8) [.set 3, .set 11, .unset 3] = some bm ∧ is_set bm 11 = some false ∧
